@@ -77,6 +77,54 @@ def modulus_lemma(repo, tier):
     return [res]
 
 
+def seq_suffix_lemma(repo, tier):
+    """the sequence facts supplied (as instances) to the tee proofs, contracts/jobs_tee.py hist_extended / suffix_lemmas:
+         0 <= y <= |h|  =>  h[y:] ++ e == (h ++ e)[y:]
+         0 <= y <  |h|  =>  (h[y:])[1:] == h[y+1:]
+         0 <= y <  |h|  =>  (h[y:])[0] == h[y]                     (each proved here once per run, by z3 and/or cvc5)"""
+    import time
+    import z3
+    from pyvc.values import SeqVal
+    h, e = z3.Const("h", SeqVal), z3.Const("e", SeqVal)
+    y = z3.Int("y")
+    n = z3.Length(h)
+    suf = z3.SubSeq(h, y, n - y)
+    goals = {
+        "append": z3.Implies(z3.And(y >= 0, y <= n), z3.Concat(suf, e) == z3.SubSeq(z3.Concat(h, e), y, n + z3.Length(e) - y)),
+        "tail": z3.Implies(z3.And(y >= 0, y < n), z3.SubSeq(suf, 1, n - y - 1) == z3.SubSeq(h, y + 1, n - y - 1)),
+        "head": z3.Implies(z3.And(y >= 0, y < n), suf[0] == h[y]),
+    }
+    obs = []
+    allok = True
+    for gname, goal in goals.items():
+        sol = z3.Solver()
+        sol.set("timeout", 30000)
+        sol.add(z3.Not(goal))
+        t = time.time()
+        r = sol.check()
+        detail = f"z3 says {r} in {time.time() - t:.2f}s"
+        ok = r == z3.unsat
+        try:
+            t = time.time()
+            p = subprocess.run(["/usr/bin/cvc5", "--strings-exp", "--lang=smt2", "--tlimit=60000"],
+                               input="(set-logic ALL)\n" + sol.to_smt2().replace("seq.nth_i", "seq.nth"), capture_output=True, text=True, timeout=90)
+            ans = p.stdout.strip().splitlines()[0] if p.stdout.strip() else "?"
+            detail += f"; cvc5 says {ans} in {time.time() - t:.2f}s"
+            ok = ok or ans == "unsat"
+            if ans == "sat" or r == z3.sat:
+                ok = False
+        except Exception as ex:
+            detail += f"; cvc5 not run ({ex!r})"
+        allok &= ok
+        obs.append({"name": f"lemma/seq-suffix-{gname}", "kind": "inv-declared", "status": "discharged" if ok else ("failed" if r == z3.sat else "unknown"),
+                    "count": 1, "detail": detail, "model": None, "trace": None})
+    res = _result("lemma:seq-suffix", ("C09", "C20", "C04", "C01", "C18"), obs)
+    res["mode"] = "prove"
+    if not allok:
+        res["crash"] = "a sequence lemma assumed by the tee jobs could not be proved: " + "; ".join(o["detail"] for o in obs if o["status"] != "discharged")
+    return [res]
+
+
 def lru_methods(repo, tier):
     """lru_cache as method / classmethod / staticmethod against functools.lru_cache: bounded native stand-in on the real code"""
     r = _native("bounded.py", repo, "refs", tier)
